@@ -261,7 +261,7 @@ ConvFlag(it, p) ==
 Junk(p) == Fail(Spanned(Leaf("custom", "syntax"), SpanAt(p, "inside")))
 
 RECURSIVE ConvTy(_, _, _), ParseStruct(_, _, _, _, _, _), FoldItems(_, _, _, _, _, _), ConvEnum(_, _, _),
-          ConvMap(_, _, _), FoldMap(_, _, _, _, _)
+          ConvMap(_, _, _), FoldMap(_, _, _, _, _), MapFromList(_)
 
 -----------------------------------------------------------------------------
 (* The struct machine (codegen/field.rs, variant_data.rs, trait_impl.rs)   *)
@@ -331,7 +331,9 @@ FlattenInit(S, rule, st) ==
   IF fi = 0 THEN st
   ELSE LET f == S.fields[fi]
            T == D(f.ty.id)
-           inner == FinishStruct(T, T.rename_all, FoldFlat(T, T.rename_all, InitSt(T), st.flat, 1), <<>>, NoSpan)
+           \* the member's own from_list: a derived struct's, or a map's (which keeps every name it is handed)
+           inner == IF f.ty.k = "map" THEN MapFromList(st.flat)
+                    ELSE FinishStruct(T, T.rename_all, FoldFlat(T, T.rename_all, InitSt(T), st.flat, 1), <<>>, NoSpan)
            names == AddrNames(S, rule)
        IN Noting(IF inner.ok
                  THEN [st EXCEPT !.slots[fi] = [seen |-> TRUE, has |-> TRUE, v |-> inner.v]]
@@ -451,22 +453,27 @@ ConvEnum(E, it, p) ==
 (* Maps with String keys and Val values (from_meta.rs:711-801); the full   *)
 (* key/value matrix is Maps.tla - here the map is a field type.            *)
 
-FoldMap(items, pp, j, acc, seen) ==
-  IF j > Len(items) THEN acc
-  ELSE LET it == items[j] p == Append(pp, j) IN
-    IF it.k = "lit" THEN FoldMap(items, pp, j + 1, [acc EXCEPT !.errs = Append(@, Leaf("format", "expression"))], seen)
+FoldMap(ips, j, acc, seen, dummy) ==
+  IF j > Len(ips) THEN acc
+  ELSE LET it == ips[j].it p == ips[j].p IN
+    IF it.k = "lit" THEN FoldMap(ips, j + 1, [acc EXCEPT !.errs = Append(@, Leaf("format", "expression"))], seen, 0)
     ELSE LET r == MapErr(ConvVal(it, p), LAMBDA e : At(e, it.name))
              dup == it.name \in seen
              a1 == IF dup THEN [acc EXCEPT !.errs = Append(@, Spanned(Leaf("dup", it.name), NameSpan(p)))] ELSE acc
              a2 == IF r.ok THEN (IF dup THEN a1 ELSE [a1 EXCEPT !.m = Append(@, <<it.name, r.v>>)])
                    ELSE [a1 EXCEPT !.errs = Append(@, r.e)]
-         IN FoldMap(items, pp, j + 1, a2, seen \cup {it.name})
+         IN FoldMap(ips, j + 1, a2, seen \cup {it.name}, 0)
+
+\* from_list of a string-keyed map (from_meta.rs, `map!`): the items each at their own position (a flatten member's
+\* buffer keeps the positions the items had in the receiver's list)
+MapFromList(ips) ==
+  LET acc == FoldMap(ips, 1, [m |-> <<>>, errs |-> <<>>], {}, 0) IN
+  IF acc.errs = <<>> THEN Ok(<<"#map">> \o acc.m) ELSE Fail(Multiple(acc.errs))
 
 ConvMap(it, p, dummy) ==
   MapErr(
     CASE it.form = "list" ->
-           LET acc == FoldMap(it.items, p, 1, [m |-> <<>>, errs |-> <<>>], {}) IN
-           IF acc.errs = <<>> THEN Ok(<<"#map">> \o acc.m) ELSE Fail(Multiple(acc.errs))
+           MapFromList([j \in 1..Len(it.items) |-> [it |-> it.items[j], p |-> Append(p, j)]])
       [] it.form = "word" -> Fail(Leaf("format", "word"))
       [] it.form = "nv"   -> Fail(Spanned(Leaf("rejected", LitTypeName(it.val)), ValueSpan(p))),
     LAMBDA e : Spanned(e, ItemSpan(p)))
